@@ -448,7 +448,7 @@ impl Prop for C11 {
     type Input = Input;
 
     fn budget(tier: Tier) -> u64 {
-        tier.pick(80_000, 2_000_000)
+        tier.pick(1_000_000, 8_000_000)
     }
 
     fn strategy(_tier: Tier) -> BoxedStrategy<Case> {
